@@ -22,7 +22,7 @@ theorem sshScan_eq (P : Pats) (q : List Bytes) (b : Bytes) :
   induction q generalizing b with
   | nil => simp [sshScan, readUntil]
   | cons c q ih =>
-    simp only [sshScan, readUntil, sshActOf, clsSSH]
+    simp only [sshScan, readUntil, sshStop, sshActOf, clsSSH]
     by_cases h1 : P.sshErr (b ++ c) = true
     · simp [h1]
     · by_cases h2 : P.promptP (b ++ c) = true
